@@ -90,29 +90,29 @@ theorem C04_ungated_noflags (T : Tables) (cfg : Cfg) (eager : List Str) (plan : 
   simp
 
 /-- the members of a command document that redaction may touch -/
-def commandZoneKeys : List Str := qKeysObj ++ uKeysObjOrArr ++ aKeysArr ++ [sDocuments, sPipeline]
+def commandZoneKeys : List Str := qKeysObj ++ uKeysObjOrArr ++ aKeysArr ++ [sDocuments, sDocument, sPipeline, sExplain, sOps]
 
 /-- **C04 (command documents)**: a member of a command document that is not one of the zone keys is
     unchanged by `redactCommand`; under --redactNamespaces only string values of the namespace-bearing
-    fields are changed in addition; keys and order are preserved -/
+    fields (and `nsInfo`) are changed in addition; keys and order are preserved -/
 theorem C04_cmd_frame (c : Ctx) (cmd : List (Str × J)) (k : Str) (hk : commandZoneKeys.contains k = false) :
     keysOf (c.redactCommand cmd) = keysOf cmd ∧
     lookup k (c.redactCommand cmd) = lookup k cmd ∧
-    (c.T.searchedFields.contains k = false → lookup k (c.redactNamespace (c.redactCommand cmd)) = lookup k cmd) := by
-  have e1 : c.redactCommand cmd = mapVals (c.cmdVal (lookup sInsert cmd).isSome) cmd := rfl
+    (c.T.searchedFields.contains k = false → k ≠ sNsInfo → lookup k (c.redactNamespace (c.redactCommand cmd)) = lookup k cmd) := by
+  have e1 : c.redactCommand cmd = mapVals (c.cmdEntry (lookup sInsert cmd).isSome (lookup sBulkWrite cmd).isSome) cmd := rfl
   have e2 : ∀ l, c.redactNamespace l = mapVals c.nsVal l := fun _ => rfl
   simp only [commandZoneKeys, List.contains_eq_mem, List.mem_append, List.mem_cons, List.mem_nil_iff, or_false,
     decide_eq_false_iff_not, not_or] at hk
-  obtain ⟨⟨⟨h1, h2⟩, h3⟩, h4, h5⟩ := hk
-  have hv : ∀ v, c.cmdVal (lookup sInsert cmd).isSome k v = v := by
-    intro v; simp [Ctx.cmdVal, h1, h2, h3, h4, h5]
+  obtain ⟨⟨⟨h1, h2⟩, h3⟩, h4, h4', h5, h6, h7⟩ := hk
+  have hv : ∀ v, c.cmdEntry (lookup sInsert cmd).isSome (lookup sBulkWrite cmd).isSome k v = v := by
+    intro v; simp [Ctx.cmdEntry, Ctx.cmdVal, h1, h2, h3, h4, h4', h5, h6, h7]
   refine ⟨by rw [e1, keysOf_mapVals], ?_, ?_⟩
   · rw [e1, lookup_mapVals]; cases lookup k cmd <;> simp [hv]
-  · intro hs
+  · intro hs hni
     rw [e2, e1, mapVals_mapVals, lookup_mapVals]
     cases h : lookup k cmd with
     | none => rfl
-    | some v => simp only [Option.map_some, hv, Ctx.nsVal, hs]; cases v <;> simp
+    | some v => simp only [Option.map_some, hv, Ctx.nsVal, Ctx.nsFieldVal, h6, hni, if_false, hs]; cases v <;> simp
 
 /-- **C04 (kept parameters)** — obligations on the regenerated tables: `$limit` and `$skip` are
     exempt whatever the key path (any pipeline depth, stage walker and query walker), and the listed
